@@ -550,8 +550,12 @@ impl SeqModel {
                 self.max_acked_id = self.max_acked_id.max(*id);
             }
             (Op::Update(id, u), Outcome::Doc(_)) => {
-                let n = apply_update(&self.docs.docs[id], *u);
-                self.docs.docs.insert(*id, n);
+                // (a caller that applies calls without `check_outcome` may name a document the
+                // model does not hold: nothing to update then)
+                if let Some(d) = self.docs.docs.get(id) {
+                    let n = apply_update(d, *u);
+                    self.docs.docs.insert(*id, n);
+                }
             }
             (Op::Remove(id), Outcome::Removed(Some(_))) => {
                 self.docs.docs.remove(id);
